@@ -528,26 +528,38 @@ def visibility_consulted_rule(cx, rep, rid):
         # a hit in the scope stack of type parameters (a pushed-and-popped Vec<(String, _)>) is no table answer: the
         # parameters of the enclosing declaration are found by name before anything is resolved in a module
         C = Closure(t)
+        def is_stack_field(x):
+            return x["k"] == "Field" and (x["name"].endswith("_stack") or "Vec<(std::string::String" in (x.get("ty") or ""))
+
         def from_scope_stack(e):
-            return any(x["k"] == "Field" and (x["name"].endswith("_stack") or "Vec<(std::string::String" in (x.get("ty") or "")) for x in C.nodes(e))
+            for x in C.nodes(e):
+                if is_stack_field(x):
+                    return True
+                # the scope lookup behind a small helper (b11: `self.lookup_type_application_stack(&ident.sym)`)
+                if x["k"] in ("Call", "MethodCall"):
+                    tg = _callee_gid(F, x)
+                    if tg in trees and tg != g and any(is_stack_field(y) for y in walk(trees[tg]["body"])) and not any(z["k"] in ("Call", "MethodCall") and _callee_gid(F, z) in trees and "/src/frontend/" in (F.fns[_callee_gid(F, z)].file or "") and F.fns[_callee_gid(F, z)].kind != "Closure" for z in walk(trees[tg]["body"])):
+                        return True
+            return False
         exits = [e for e in exits if not from_scope_stack(e)]
         # an exit that states the visibility itself (`Visibility::Export` for the target of an import type) decides it
         def states_visibility(e):
             for x in C.nodes(e):
                 if x["k"] == "Path" and x.get("res") == "def" and "Visibility::" in (x.get("def") or ""):
                     return True
-                # .. or through a small helper that builds the address with the constant (b81: `default_export_address(file)`)
+                # .. or through a helper that takes no Visibility and states the constant itself (b81: `default_export_address(file)`,
+                # b75: the import arm moved into `extract_typeof_import(..)`): the callee decides the visibility
                 if x["k"] in ("Call", "MethodCall"):
                     tg = _callee_gid(F, x)
                     if tg in trees and tg != g and not any((b.get("ty") or "").endswith("Visibility") for p_ in trees[tg].get("params", []) for b in walk(p_) if b["k"] == "P.Binding") \
-                            and any(y["k"] == "Path" and y.get("res") == "def" and "Visibility::" in (y.get("def") or "") for y in walk(trees[tg]["body"])) and len(list(walk(trees[tg]["body"]))) < 60:
+                            and any(y["k"] == "Path" and y.get("res") == "def" and "Visibility::" in (y.get("def") or "") for y in walk(trees[tg]["body"])):
                         return True
             return False
         exits = [e for e in exits if not states_visibility(e)]
         rep.ob(rid, "%s/visibility-consulted" % g.rsplit("::", 1)[-1], not exits,
                "%s returns a value (line %s) on a path that has not read its `Visibility` parameter: a name reached through `import(\"./t\").N` must be looked up in t's EXPORT table - an answer taken from a table keyed by (file, name) before that binds it to t's private `N` (silently the wrong type when t exports something else under that name, and no diagnostic when t exports no `N`), depending on which parser was extracted first"
                % (g, exits[0]["line"] if exits else "?"), "%s:%s" % (f.file, exits[0]["line"] if exits else f.line), sample={"fn": g})
-    rep.floor(rid, "frontend functions that take a Visibility", n, 4)
+    rep.floor(rid, "frontend functions that take a Visibility", n, 3)
 
 
 # ---------------------------------------------------------------------------------------------------------------------
@@ -1189,12 +1201,23 @@ def printed_type_not_edited_rule(cx, rep, rid):
         units.append((fname, fn))
 
     text_fields = set()
+    # the printers, by role: methods and module functions whose first parameter is the describe context (by its
+    # annotation) and that return text or a description record
+    printers = {"describe", "describeTypeExpr"}
+    for uname_, fn_ in units:
+        ps_ = fn_.get("params", [])
+        if ps_:
+            pat_ = ps_[0].get("pat", ps_[0])
+            ann_ = tsast.type_str((pat_.get("typeAnnotation") or {}).get("typeAnnotation"))
+            rt_ = tsast.type_str((fn_.get("returnType") or {}).get("typeAnnotation"))
+            if ann_ == "DescribeContext" and rt_ in ("string", "TypeDescription"):
+                printers.add(uname_.rsplit(".", 1)[-1])
 
     def is_print_call(e):
         e = unparen(e)
         if e.get("type") == "MemberExpression" and e["property"].get("type") == "Identifier" and e["property"]["value"] in text_fields:
             return True          # a field of a description record that was filled with printed text
-        return e.get("type") == "CallExpression" and ts_s(e["callee"]).rsplit(".", 1)[-1] in ("describeTypeExpr", "describe")
+        return e.get("type") == "CallExpression" and ts_s(e["callee"]).rsplit(".", 1)[-1] in printers
     for _r in range(2):
         for _un, _fn in units:
             loc_hold = set()
@@ -1253,7 +1276,7 @@ def printed_type_not_edited_rule(cx, rep, rid):
         rep.ob(rid, "%s/printed-text-not-edited" % uname, not bad,
                "%s edits printed type text with %s: the text of a type is what its own printer produced and is compiled back as it stands - a textual rewrite matches the first occurrence anywhere in the NESTED text (`labels?: Array<(undefined | string)>` loses the item's `undefined`; the compiled-again validator rejects what the original accepts) and changes the shape that is hashed (`note?: string | undefined` comes back without the union)"
                % (uname, ", ".join(sorted({ts_s(b["callee"]) for b in bad}))), mod.loc(bad[0]) if bad else mod.loc(fn), sample={"unit": uname, "text_holders": sorted(holds)[:6]})
-    rep.floor(rid, "functions that hold printed type text", n, 10)
+    rep.floor(rid, "functions that hold printed type text", n, 6)
 
 
 def cyclic_input_rule(cx, rep, rid):
